@@ -1,5 +1,5 @@
 """C05 -- condition variables: atomic release-and-wait, exact wakeups, no spurious wakeup."""
-from vr import Obl
+from vr import Obl, deepen
 
 META = {
     "explanation": "E2: ABT_cond_wait / ABT_cond_timedwait as focus (real code); the solver places real ABT_cond_signal/ABT_cond_broadcast calls and "
@@ -37,6 +37,7 @@ def wait_obls(tier, timed):
                      no_std=["--pointer-overflow-check", "--signed-overflow-check", "--undefined-shift-check"], encodes=ENC,
                      bounds="focus + <=1 waiter ahead + <=1 behind; <=2 signal/broadcast; <=1 environment step per scheduling point; <=2 while parked; poll/retry loops unwound 2-4x with unwinding assertions",
                      symbolic="kinds of the other waiters, placement and kind of every environment step, deadline, clock readings", timeout=900 if tier == "thorough" else 280, mem_gb=12))
+    o += deepen([x for x in o if x.hooks], tier)
     return o
 
 
